@@ -1,4 +1,5 @@
-import PdshVerif.Pcp.Received
+import PdshVerif.Pcp.Isolated
+import PdshVerif.Pcp.Commute
 import PdshVerif.Pcp.Spec
 
 /-! # C11  pdcp/rpdcp reproduce the source tree exactly on every target
@@ -28,21 +29,43 @@ write faults (`o.fsize = none`).  Times are in microseconds, the resolution of t
                         (F11-DIRMODE-SETID); with the repaired receiver (`dirChmod`: chmod after mkdir)
                         unconditionally.
 * `reverse_names`    -- in a reverse copy an entry the user named `dir/base` is sent as `base.host`.
+* `copy_with_write_faults`, `received_file_toobig`
+                     -- `error_isolated` for WRITE failures: under a file size limit (short write / EFBIG, like
+                        a full disk) the receiver still consumes the whole stream, sends exactly one error
+                        record per file that does not fit, and every file that fits -- before, after, at any
+                        depth -- is exactly the source's (`received_file`).
+* `error_isolated_open`
+                     -- `error_isolated` for OPEN failures: a file whose name is taken by a directory on the
+                        target gets one error record, the interactive sender skips its data, exactly its
+                        records are consumed, and the result is as if it had not been sent.
+* `no_other_entries` -- the `names` clause: after the copy a path exists only if it existed before or is a node
+                        of one of the source trees below its name.
+* `reverse_many_seq`, `reverse_roundtrip`
+                     -- rpdcp with N targets: whatever the order in which the local receiver processes the N
+                        streams, it ends with the same file system, one copy per target under `SRC.host`
+                        (`recvKids_perm`: sibling trees under different names commute).
 
-Not proved: that the directories hold *no other* entries than the source's (the `names` clause of
-`Spec.check`; holds by `recvTree_other` + freshness but is not spelled out), the interactive
-behaviour of the sender after an error reply (`error_isolated`; the correspondence shows it is
-violated for directories: finding F11-DIRFAIL-SCATTER), several targets (each target runs this
-client on its own connection: C03/C09).
+Modelled, not proved: the sender's reaction to an error reply (it skips the data after a failed `C`
+record: `itemsBytes`; the correspondence compares real client streams only for all-positive replies
+and for write faults); the threads of the real rpdcp receiver are represented by sequential
+processing in an arbitrary order (assumption: the kernel serialises operations per path, and the
+targets' names are distinct, so the threads work on disjoint sub-trees).
+Not proved: a directory that cannot be created (finding F11-DIRFAIL-SCATTER: the statement is false),
+several targets of a forward copy (each runs this receiver on its own file system: C03/C09).
 -/
 namespace PdshVerif.Props.C11
 open PdshVerif.Pcp PdshVerif.Gen
 
-/-- **Round trip.**  `dest` resolves to an existing directory `D`; the names the sources are sent
-under are good, pairwise distinct, short enough, and not yet present below `D`; then the receiver fed
-with the sender's stream ends with the file system `recvKids o so.subsec fs D (namedSrcs so srcs)` and
-has answered with acknowledgements only. -/
-theorem copy_roundtrip (o : Opts) (hc : CntOk o) (hnf : o.fsize = none) (so : SOpts)
+/-- **Round trip, with write faults** (`error_isolated` for write failures).  `dest` resolves to an
+existing directory `D`; the names the sources are sent under are good, pairwise distinct, short enough,
+and not yet present below `D`; the receiver may run under a file size limit (`o.fsize`: a write beyond
+it is short or fails, like a full disk).  Then the receiver fed with the sender's stream -- the sender
+sends every file completely, the error arrives after the data -- ends with the file system
+`recvKids o so.subsec fs D (namedSrcs so srcs)`, in which every file that fits is exactly the source's
+(`received_file`, at every depth) and every file that does not fit holds the bytes that fitted; it has
+consumed the whole stream and answered with acknowledgements and EXACTLY ONE error record per file that
+did not fit (`Rs`). -/
+theorem copy_with_write_faults (o : Opts) (hc : CntOk o) (so : SOpts)
     (hp : so.preserve = o.preserve) (fs : FS)
     (D : Path) (srcs : List (Str × Tree)) (budget : Nat)
     (hres : resolve fs o.cwd o.dest = some D) (hdir : fs.isDir D = true)
@@ -50,7 +73,8 @@ theorem copy_roundtrip (o : Opts) (hc : CntOk o) (hnf : o.fsize = none) (so : SO
     (hgood : GoodKids budget (namedSrcs so srcs))
     (hfresh : ∀ n k, (n, k) ∈ namedSrcs so srcs → FreshBelow fs (D ++ [n])) :
     (sink o fs (send so srcs)).1 = recvKids o so.subsec fs D (namedSrcs so srcs) ∧
-    ∀ r ∈ (sink o fs (send so srcs)).2.1, r = Reply.ack := by
+    ∃ rs, (sink o fs (send so srcs)).2.1 = .ack :: rs ∧ Rs rs (faultsKids o (namedSrcs so srcs)) ∧
+      (run o fs (send so srcs)).phase = .done ∧ DirMono fs (sink o fs (send so srcs)).1 := by
   have hv : VerifyOk o fs := fun _ => ⟨D, hres, hdir⟩
   have h0 : enter o (St.init fs) o.dest =
       { St.init fs with out := [.ack],
@@ -64,10 +88,10 @@ theorem copy_roundtrip (o : Opts) (hc : CntOk o) (hnf : o.fsize = none) (so : SO
     exact ⟨rfl, rfl, rfl, hres, hdir, hv, ⟨usecOk_zero _, usecOk_zero _⟩⟩
   have hfresh' : ∀ n k, (n, k) ∈ namedSrcs so srcs → FreshBelow (enter o (St.init fs) o.dest).fs (D ++ [n]) := by
     rw [h0]; exact hfresh
-  have hfed := feed_kids hc hnf so.subsec (namedSrcs so srcs) budget _ _ [] D hat rfl hb hgood hfresh'
+  have hfed := feed_kids hc so.subsec (namedSrcs so srcs) budget _ _ [] D hat (fun e => by cases e) hb hgood hfresh'
   rw [← hp, ← send_eq so srcs hsrc] at hfed
   generalize hst : (send so srcs).foldl (step o) (enter o (St.init fs) o.dest) = st' at hfed
-  obtain ⟨⟨f', hat', _, _⟩, hfs, _, acks, hacks, hacksa⟩ := hfed
+  obtain ⟨⟨f', hat', _, _⟩, hfs, hmono, rs, hrs, hrsa⟩ := hfed
   have hfin : finish o st' = { st' with stack := [], phase := .done } := by
     unfold finish
     simp only [hat'.phase]
@@ -76,16 +100,39 @@ theorem copy_roundtrip (o : Opts) (hc : CntOk o) (hnf : o.fsize = none) (so : SO
     rfl
   have hrun : run o fs (send so srcs) = { st' with stack := [], phase := .done } := by
     unfold run; rw [hst, hfin]
-  constructor
+  refine ⟨?_, rs.reverse, ?_, ?_, ?_, ?_⟩
   · simp only [sink, hrun, hfs]
     rw [h0]
     rfl
-  · intro r hr
-    simp only [sink, hrun, List.mem_reverse, hacks, List.mem_append] at hr
-    rcases hr with hr | hr
-    · exact hacksa r hr
-    · rw [h0] at hr
-      simpa using hr
+  · simp only [sink, hrun, hrs]
+    rw [h0]
+    simp
+  · exact ⟨fun r hr => hrsa.1 r (List.mem_reverse.1 hr), by rw [List.count_reverse]; exact hrsa.2⟩
+  · rw [hrun]
+  · simp only [sink, hrun]
+    rw [h0] at hmono
+    exact hmono
+
+/-- **Round trip.**  Without a file size limit (no write faults): the receiver fed with the sender's
+stream ends with the file system `recvKids o so.subsec fs D (namedSrcs so srcs)` and has answered with
+acknowledgements only. -/
+theorem copy_roundtrip (o : Opts) (hc : CntOk o) (hnf : o.fsize = none) (so : SOpts)
+    (hp : so.preserve = o.preserve) (fs : FS)
+    (D : Path) (srcs : List (Str × Tree)) (budget : Nat)
+    (hres : resolve fs o.cwd o.dest = some D) (hdir : fs.isDir D = true)
+    (hsrc : SrcsOk so srcs) (hb : o.dest.length + budget < PCP_PATH_MAX)
+    (hgood : GoodKids budget (namedSrcs so srcs))
+    (hfresh : ∀ n k, (n, k) ∈ namedSrcs so srcs → FreshBelow fs (D ++ [n])) :
+    (sink o fs (send so srcs)).1 = recvKids o so.subsec fs D (namedSrcs so srcs) ∧
+    ∀ r ∈ (sink o fs (send so srcs)).2.1, r = Reply.ack := by
+  obtain ⟨h1, rs, h2, h3, _, _⟩ := copy_with_write_faults o hc so hp fs D srcs budget hres hdir hsrc hb hgood hfresh
+  refine ⟨h1, ?_⟩
+  rw [h2, faultsKids_none o hnf] at *
+  intro r hr
+  simp only [List.mem_cons] at hr
+  rcases hr with rfl | hr
+  · rfl
+  · exact h3.all_ack r hr
 
 /-- **One file of any size** at the byte level (`feed_C` re-stated): at a record boundary in a
 directory, `C<mode> <size> <name>\n` + the bytes + NUL create exactly that file, with two
@@ -99,28 +146,41 @@ theorem file_any_size (o : Opts) (hc : CntOk o) (hnf : o.fsize = none) (st : St)
     st'.fs (q ++ [n]) = some (.file (maskOff (m &&& RCP_MODEMASK) o.eumask) none d) ∧
     st'.out = .ack :: .ack :: st.out ∧ st'.touched = (q ++ [n]) :: st.touched ∧ st'.phase = .start := by
   simp only
-  rw [feed_C hc hnf hat.phase hat.stack hat.isdir hat.res hat.dir hn hfresh hlen m d hsz hat.us]
+  have hfit : o.fitsB d.length = true := by simp [Opts.fitsB, hnf]
+  rw [feed_C hc hat.phase hat.stack hat.isdir hat.res hat.dir hn hfresh hlen m d hsz hfit hat.us]
   simp [hns, set_self, recvFile]
 
 /-! ## what arrives -/
 
 /-- **Files arrive with their bytes**: the node for a regular file among the received siblings. -/
 theorem received_file (o : Opts) (ss : Bool) (fs : FS) (q : Path) (kids : List (Str × Tree)) (n : Str)
-    (m t a : Nat) (d : Str) (hm : (n, Tree.file m t a d) ∈ kids) (hd : kids.Pairwise (fun a b => a.1 ≠ b.1)) :
+    (m t a : Nat) (d : Str) (hm : (n, Tree.file m t a d) ∈ kids) (hd : kids.Pairwise (fun a b => a.1 ≠ b.1))
+    (hfit : o.fitsB d.length = true) :
     recvKids o ss fs q kids (q ++ [n]) =
       some (.file (maskOff (m &&& RCP_MODEMASK) o.eumask) (if o.preserve then some (sentTime ss t) else none) d) := by
   obtain ⟨fs0, h⟩ := recvKids_lookup o ss fs q kids n _ hm hd
   rw [h]
-  simp [recvTree, set_self, recvFile]
+  simp [recvTree, set_self, recvFile, recvFileNode, hfit]
+
+/-- a file that does not fit the receiver's file size limit holds the bytes that fitted -- at its own
+path; no other path is affected (`recvKids_lookup`/`recvTree_other`) -/
+theorem received_file_toobig (o : Opts) (ss : Bool) (fs : FS) (q : Path) (kids : List (Str × Tree)) (n : Str)
+    (m t a : Nat) (d : Str) (hm : (n, Tree.file m t a d) ∈ kids) (hd : kids.Pairwise (fun a b => a.1 ≠ b.1))
+    (hfit : o.fitsB d.length = false) :
+    recvKids o ss fs q kids (q ++ [n]) =
+      some (.file (maskOff (m &&& RCP_MODEMASK) o.eumask) none (o.writable d)) := by
+  obtain ⟨fs0, h⟩ := recvKids_lookup o ss fs q kids n _ hm hd
+  rw [h]
+  simp [recvTree, set_self, recvFileNode, hfit]
 
 /-- **-p preserves mode and modification time of files**: to the microsecond with the repaired sender,
 to the second with the code as found. -/
 theorem preserve_meta_file (o : Opts) (hp : o.preserve = true) (ss : Bool) (fs : FS) (q : Path)
     (kids : List (Str × Tree)) (n : Str) (m t a : Nat) (d : Str) (hm : (n, Tree.file m t a d) ∈ kids)
-    (hd : kids.Pairwise (fun a b => a.1 ≠ b.1)) :
+    (hd : kids.Pairwise (fun a b => a.1 ≠ b.1)) (hfit : o.fitsB d.length = true) :
     recvKids o ss fs q kids (q ++ [n]) =
       some (.file (m % 4096) (some ⟨((t / USEC : Nat) : Int), ((if ss then t % USEC else 0 : Nat) : Int)⟩) d) := by
-  rw [received_file o ss fs q kids n m t a d hm hd]
+  rw [received_file o ss fs q kids n m t a d hm hd hfit]
   simp [hp, Opts.eumask, maskOff_zero, sentUsec]
 
 /-- **Directories arrive** with the mode `recvDirMode` (what `mkdir` gives: permission and sticky bits
@@ -183,6 +243,84 @@ theorem preserve_meta_dir_repaired (o : Opts) (hp : o.preserve = true) (hfix : o
 /-- the hypotheses of `preserve_meta_dir` are satisfiable: mode 0755 below a 0755 parent -/
 example : (0o755 % 4096 < 1024) ∧ ((0o755 : Nat) &&& 0o2000 = 0) := by decide
 
+/-! ## error isolation and "nothing else" -/
+
+/-- **`error_isolated` for files that cannot be opened.**  The entries sent into `D` are trees whose
+names are free there (`Item.good`) and regular files whose name is taken by a directory on the target
+(`Item.blocked`); all names are distinct.  The stream is that of the interactive sender, which after
+the error reply to a `C` record sends neither the file's data nor the NUL.  Then the receiver consumes
+the whole stream; it ends with the file system `recvKids … (goods items)` -- exactly as if the blocked
+files had not been there, so every other file is identical to the source (`received_file`); and it
+answers with acknowledgements, one "cannot open" error record per blocked file and one "can't
+truncate" error record per file beyond the file size limit. -/
+theorem error_isolated_open (o : Opts) (hc : CntOk o) (ss : Bool) (fs : FS) (D : Path) (items : List Item)
+    (budget : Nat) (hres : resolve fs o.cwd o.dest = some D) (hdir : fs.isDir D = true)
+    (hb : o.dest.length + budget < PCP_PATH_MAX) (hok : ItemsOk budget fs D items) :
+    (sink o fs (itemsBytes o.preserve ss items)).1 = recvKids o ss fs D (goods items) ∧
+    ∃ rs, (sink o fs (itemsBytes o.preserve ss items)).2.1 = .ack :: rs ∧
+      RsI rs (faultsKids o (goods items)) (blockedCount items) ∧
+      (run o fs (itemsBytes o.preserve ss items)).phase = .done := by
+  have hv : VerifyOk o fs := fun _ => ⟨D, hres, hdir⟩
+  have h0 : enter o (St.init fs) o.dest =
+      { St.init fs with out := [.ack],
+                        stack := [{ targ := o.dest, targisdir := true, setimes := false, mt := default, atm := default }],
+                        phase := .start } := by
+    rw [enter_ok (p := D) hv hres hdir]
+    rfl
+  have hat : AtDir o (enter o (St.init fs) o.dest)
+      { targ := o.dest, targisdir := true, setimes := false, mt := default, atm := default } [] D := by
+    rw [h0]
+    exact ⟨rfl, rfl, rfl, hres, hdir, hv, ⟨usecOk_zero _, usecOk_zero _⟩⟩
+  have hok' : ItemsOk budget (enter o (St.init fs) o.dest).fs D items := by
+    rw [h0]; exact hok
+  have hfed := feed_items hc ss items budget _ _ [] D hat (fun e => by cases e) hb hok'
+  generalize hst : (itemsBytes o.preserve ss items).foldl (step o) (enter o (St.init fs) o.dest) = st' at hfed
+  obtain ⟨⟨f', hat', _, _⟩, hfs, rs, hrs, hrsa⟩ := hfed
+  have hfin : finish o st' = { st' with stack := [], phase := .done } := by
+    unfold finish
+    simp only [hat'.phase]
+    unfold leave
+    simp only [hat'.stack]
+    rfl
+  have hrun : run o fs (itemsBytes o.preserve ss items) = { st' with stack := [], phase := .done } := by
+    unfold run; rw [hst, hfin]
+  refine ⟨?_, rs.reverse, ?_, ?_, ?_⟩
+  · simp only [sink, hrun, hfs]
+    rw [h0]
+    rfl
+  · simp only [sink, hrun, hrs]
+    rw [h0]
+    simp
+  · exact ⟨fun r hr => hrsa.1 r (List.mem_reverse.1 hr), by rw [List.count_reverse]; exact hrsa.2.1,
+      by rw [List.count_reverse]; exact hrsa.2.2⟩
+  · rw [hrun]
+
+/-- **The destination holds nothing but the installed trees and what was there before** (the `names`
+clause of `Spec.check`): after the copy of `copy_with_write_faults`, a path that exists either existed
+before or is a node of one of the source trees below its name in `D`. -/
+theorem no_other_entries (o : Opts) (ss : Bool) (fs : FS) (D : Path) (kids : List (Str × Tree)) (budget : Nat)
+    (hdir : fs.isDir D = true) (hfresh : ∀ n k, (n, k) ∈ kids → FreshBelow fs (D ++ [n]))
+    (hgood : GoodKids budget kids) (x : Path) (hx : recvKids o ss fs D kids x ≠ none) :
+    fs x ≠ none ∨ ∃ c rel, x = D ++ [c] ++ rel ∧ kidsHave kids c rel = true := by
+  by_cases hp : D <+: x
+  · obtain ⟨r, rfl⟩ := hp
+    cases r with
+    | nil =>
+      left
+      rw [List.append_nil]
+      intro hn
+      simp [FS.isDir, hn] at hdir
+    | cons c rel =>
+      have e : D ++ c :: rel = D ++ [c] ++ rel := by simp
+      rw [e] at hx ⊢
+      rcases recvKids_only o ss fs D kids budget hfresh hgood c rel hx with h | h
+      · exact Or.inl h
+      · exact Or.inr ⟨c, rel, rfl, h⟩
+  · left
+    rw [recvKids_other o ss fs D kids x (fun e => hp (e ▸ List.prefix_refl _))
+      (fun n _ _ hpre => hp ((List.prefix_append _ _).trans hpre))] at hx
+    exact hx
+
 /-! ## reverse copy names -/
 
 /-- **`.host` naming**: in a reverse copy (`pdcp -Z files host` on the remote side) an entry the user
@@ -212,6 +350,64 @@ theorem forward_names (so : SOpts) (hrev : so.reverse = false) (dir base : Str) 
     sentName so (dir ++ cSlash :: base) true = base := by
   simp only [sentName, hrev, Bool.false_and, Bool.false_eq_true, ↓reduceIte]
   exact xbasename_join _ _ hb
+
+/-! ## rpdcp: several targets into one directory -/
+
+/-- the streams of the targets `ts`, processed in the order given, install every target's trees -/
+theorem reverse_many_seq (o : Opts) (hc : CntOk o) (ss : Bool) (D : Path) (budget : Nat)
+    (hb : o.dest.length + budget < PCP_PATH_MAX) (ts : List Target) :
+    ∀ (fs : FS), (∀ t ∈ ts, t.so.preserve = o.preserve ∧ t.so.subsec = ss ∧ SrcsOk t.so t.srcs) →
+      resolve fs o.cwd o.dest = some D → fs.isDir D = true → GoodKids budget (allNamed ts) →
+      (∀ n k, (n, k) ∈ allNamed ts → FreshBelow fs (D ++ [n])) →
+      runMany o fs (ts.map Target.stream) = recvKids o ss fs D (allNamed ts) := by
+  induction ts with
+  | nil => intro fs _ _ _ _ _; rfl
+  | cons t r ih =>
+    intro fs hts hres hdir hgood hfresh
+    rw [allNamed_cons] at hgood hfresh ⊢
+    obtain ⟨hg1, hg2, hcross⟩ := goodKids_append hgood
+    obtain ⟨hp, hss, hsrc⟩ := hts t List.mem_cons_self
+    obtain ⟨h1, _, _, _, _, hmono⟩ := copy_with_write_faults o hc t.so hp fs D t.srcs budget hres hdir hsrc hb hg1
+      (fun n k hm => hfresh n k (List.mem_append_left _ hm))
+    simp only [List.map_cons, runMany, List.foldl_cons]
+    show runMany o (sink o fs t.stream).1 (r.map Target.stream) = _
+    have hfs' : (sink o fs t.stream).1 = recvKids o ss fs D t.named := by
+      rw [← hss]; exact h1
+    rw [ih (sink o fs t.stream).1 (fun t' ht' => hts t' (List.mem_cons_of_mem _ ht'))
+      (resolve_mono hmono hres) (hmono _ hdir) hg2 ?_, hfs', recvKids_append]
+    intro n k hm x hx
+    rw [hfs', recvKids_other o ss fs D t.named x (prefix_snoc_ne hx)
+      (fun n' k' hm' => ne_prefix_snoc' (hcross (n', k') hm' (n, k) hm) hx)]
+    exact hfresh n k (List.mem_append_right _ hm) x hx
+
+/-- **Reverse round trip, N targets, any order.**  Each target `t ∈ ts` runs the client on its own
+trees and sends them under its own names (`SRC.host`, see `reverse_names`); the names of all targets
+are pairwise distinct and free in the local destination `D` (`GoodKids` of `allNamed ts`,
+`FreshBelow`).  In whatever order `ts'` (a permutation of `ts`) the local receiver processes the
+streams, it ends with the SAME file system: `recvKids … (allNamed ts)` -- exactly one copy per target
+under its own name (`received_file`/`received_dir` for every node, `no_other_entries`). -/
+theorem reverse_roundtrip (o : Opts) (hc : CntOk o) (ss : Bool) (fs : FS) (D : Path) (budget : Nat)
+    (hb : o.dest.length + budget < PCP_PATH_MAX) (ts : List Target)
+    (hts : ∀ t ∈ ts, t.so.preserve = o.preserve ∧ t.so.subsec = ss ∧ SrcsOk t.so t.srcs)
+    (hres : resolve fs o.cwd o.dest = some D) (hdir : fs.isDir D = true)
+    (hgood : GoodKids budget (allNamed ts))
+    (hfresh : ∀ n k, (n, k) ∈ allNamed ts → FreshBelow fs (D ++ [n]))
+    (ts' : List Target) (hperm : ts'.Perm ts) :
+    runMany o fs (ts'.map Target.stream) = recvKids o ss fs D (allNamed ts) := by
+  have hpn : (allNamed ts').Perm (allNamed ts) := by
+    unfold allNamed
+    exact hperm.flatMap_right _
+  have hgood' : GoodKids budget (allNamed ts') := goodKids_perm hpn.symm hgood
+  rw [reverse_many_seq o hc ss D budget hb ts' fs (fun t ht => hts t (hperm.mem_iff.1 ht)) hres hdir hgood'
+    (fun n k hm => hfresh n k (hpn.mem_iff.1 hm))]
+  exact recvKids_perm o ss D hpn ((goodKids_iff _ _).1 hgood').2 fs
+
+/-- different hosts give different names for the same base name -/
+theorem host_names_distinct (base h1 h2 : Str) (h : h1 ≠ h2) : base ++ cDot :: h1 ≠ base ++ cDot :: h2 := by
+  intro e
+  have := List.append_cancel_left e
+  simp at this
+  exact h this
 
 /-! ## the hypotheses of `copy_roundtrip` are satisfiable -/
 
@@ -260,5 +456,54 @@ example :
       have h3 : x ≠ [[119], [100]] := by intro e; subst e; simp at hl
       simp [h1, h2, h3])
   refine ⟨h.1, h.2, by decide +kernel⟩
+
+/-! ## the hypotheses of `reverse_roundtrip` are satisfiable -/
+
+def ro : Opts :=
+  { preserve := false, targetIsDir := false, umask := 0o22, cnt := 8192, rule := .slashDotdot, dirChmod := true,
+    fsize := none, cwd := [[119]], dest := [100] }
+
+/-- target `a` holds the file `t` with contents `X`, target `b` with contents `Y` -/
+def ta : Target :=
+  { so := { preserve := false, reverse := true, host := [97], subsec := true, sentinelFix := true },
+    srcs := [([116], .file 0o644 0 0 [88])] }
+def tb : Target :=
+  { so := { preserve := false, reverse := true, host := [98], subsec := true, sentinelFix := true },
+    srcs := [([116], .file 0o644 0 0 [89])] }
+
+example :
+    runMany ro xfs ([tb, ta].map Target.stream) = recvKids ro true xfs [[119], [100]] (allNamed [ta, tb]) ∧
+    recvKids ro true xfs [[119], [100]] (allNamed [ta, tb]) [[119], [100], [116, 46, 97]] =
+      some (.file 0o644 none [88]) ∧
+    recvKids ro true xfs [[119], [100]] (allNamed [ta, tb]) [[119], [100], [116, 46, 98]] =
+      some (.file 0o644 none [89]) := by
+  have ea : sentName ta.so [116] true = [116, 46, 97] := by decide +kernel
+  have eb : sentName tb.so [116] true = [116, 46, 98] := by decide +kernel
+  have en : allNamed [ta, tb] = [([116, 46, 97], .file 0o644 0 0 [88]), ([116, 46, 98], .file 0o644 0 0 [89])] := by
+    simp [allNamed, Target.named, namedSrcs, ta, tb] at ea eb ⊢
+    exact ⟨ea, eb⟩
+  refine ⟨?_, by rw [en]; decide +kernel, by rw [en]; decide +kernel⟩
+  apply reverse_roundtrip ro ⟨by decide, by decide⟩ true xfs [[119], [100]] 100 (by decide) [ta, tb]
+  · intro t ht
+    simp only [List.mem_cons, List.not_mem_nil, or_false] at ht
+    rcases ht with rfl | rfl
+    · exact ⟨rfl, rfl, by simp only [ta, SrcsOk, KidNamesOk]; decide⟩
+    · exact ⟨rfl, rfl, by simp only [tb, SrcsOk, KidNamesOk]; decide⟩
+  · decide +kernel
+  · decide +kernel
+  · rw [en]
+    simp only [GoodKids, GoodTree]
+    refine ⟨⟨⟨⟨by decide, by decide, by decide, by decide⟩, ⟨by decide, by decide⟩, by decide⟩, by decide,
+      by decide, by decide, by decide⟩, by simp, ⟨⟨⟨by decide, by decide, by decide, by decide⟩,
+      ⟨by decide, by decide⟩, by decide⟩, by decide, by decide, by decide, by decide⟩, by simp, trivial⟩
+  · intro n k _ x hx
+    have hl := hx.length_le
+    simp only [List.length_append, List.length_cons, List.length_nil] at hl
+    unfold xfs
+    have h1 : x ≠ [] := by intro e; subst e; simp at hl
+    have h2 : x ≠ [[119]] := by intro e; subst e; simp at hl
+    have h3 : x ≠ [[119], [100]] := by intro e; subst e; simp at hl
+    simp [h1, h2, h3]
+  · exact List.Perm.swap _ _ _
 
 end PdshVerif.Props.C11
